@@ -22,6 +22,12 @@ KINDS = {
 }
 
 
+# a call that crashes or hangs the server has no reply at all: it fails every property judged on replies
+for _k, _v in KINDS.items():
+    if 'reply' in _v:
+        _v.add('panic')
+
+
 def load_corpus(prop):
     d = os.path.join(vlib.V, 'corpus')
     out = []
